@@ -561,8 +561,9 @@ type runOut struct {
 	err   error
 }
 
-// Watchdog bounds one compilation.
-var Watchdog = 2 * time.Second
+// Watchdog bounds one compilation (the property is termination, not speed: the bound is generous
+// and must expire twice, see Compile).
+var Watchdog = 20 * time.Second
 
 // Compile compiles the chain of c.Svc reps times and records a digest of each complete output.
 //
@@ -610,19 +611,28 @@ func (h *H) Compile(c *Cmd, reps int, rnd *rand.Rand) (CompileRes, error) {
 				return runOut{ch, err}
 			}
 		}
-		done := make(chan runOut, 1)
-		go func() {
-			defer func() {
-				if p := recover(); p != nil {
-					done <- runOut{nil, fmt.Errorf("verif-panic: %v", p)}
-				}
-			}()
-			done <- fn()
-		}()
+		// A compilation that has not returned after the watchdog is started a second time: only two
+		// expiries in a row count as "does not terminate" (a starved goroutine on a loaded machine
+		// must not look like a hang; a real loop never returns, however often it is tried).
 		var out runOut
-		select {
-		case out = <-done:
-		case <-time.After(Watchdog):
+		returned := false
+		for attempt := 0; attempt < 2 && !returned; attempt++ {
+			done := make(chan runOut, 1)
+			go func() {
+				defer func() {
+					if p := recover(); p != nil {
+						done <- runOut{nil, fmt.Errorf("verif-panic: %v", p)}
+					}
+				}()
+				done <- fn()
+			}()
+			select {
+			case out = <-done:
+				returned = true
+			case <-time.After(Watchdog):
+			}
+		}
+		if !returned {
 			res.Hung = true
 			return res, nil
 		}
